@@ -204,6 +204,13 @@ func ruleR20b2(c *Check) {
 				}
 				if reach, _ := engine.PathExists(t.Fn, firstInstrBefore(bodyEntry), engine.IsInstr(call), engine.PathQuery{CutEdge: cut}); reach {
 					if r2, _ := engine.PathExists(t.Fn, nil, engine.IsInstr(call), engine.PathQuery{CutEdge: cut}); r2 {
+						// a worklist that is only ever extended on the never-seen branch holds each node once,
+						// so listing the popped element at pop time lists each node once
+						if t.Kind == "worklist" && poppedFromWorklist(call, t.Site.(*ssa.Call)) {
+							if pushUnguarded, _ := engine.PathExists(t.Fn, firstInstrBefore(bodyEntry), engine.IsInstr(t.Site), engine.PathQuery{CutEdge: cut}); !pushUnguarded {
+								continue
+							}
+						}
 						dupFree = false
 					}
 				}
@@ -217,6 +224,16 @@ func ruleR20b2(c *Check) {
 				continue
 			}
 			if _, isIf := lastIf(b); !isIf || !b.Dominates(t.Site.Block()) || b == t.Site.Block() {
+				continue
+			}
+			// the header of an inner loop over the neighbours is iteration, not a filter
+			isInnerHeader := false
+			for _, l := range engine.LoopsContaining(t.Site) {
+				if l.Header == b {
+					isInnerHeader = true
+				}
+			}
+			if isInnerHeader {
 				continue
 			}
 			guard := false
@@ -237,6 +254,58 @@ func ruleR20b2(c *Check) {
 		}
 		c.Require(extra == 0, "R20c", "descent-unconditional/"+fname, "only the visited test guards the descent", "the walk is pruned by an additional condition (a filter/predicate inside the traversal): nodes reachable only through a non-matching node are silently dropped from transitive queries", c.P.InstrPos(t.Site))
 	}
+}
+
+// poppedFromWorklist: every appended element of `app` is read from the slice that `push` extends.
+func poppedFromWorklist(app, push *ssa.Call) bool {
+	roots := sliceRoots(push)
+	if len(app.Call.Args) < 2 {
+		return false
+	}
+	var elems []ssa.Value
+	for _, a := range app.Call.Args[1:] {
+		// the compiler packs `append(s, x)` into a one-element varargs array
+		if sl, isSl := a.(*ssa.Slice); isSl {
+			if al, isAl := sl.X.(*ssa.Alloc); isAl {
+				for _, ref := range *al.Referrers() {
+					if ia, isIA := ref.(*ssa.IndexAddr); isIA {
+						for _, r2 := range *ia.Referrers() {
+							if st, isSt := r2.(*ssa.Store); isSt && st.Addr == ssa.Value(ia) {
+								elems = append(elems, st.Val)
+							}
+						}
+					}
+				}
+				continue
+			}
+		}
+		elems = append(elems, a)
+	}
+	if len(elems) == 0 {
+		return false
+	}
+	for _, a := range elems {
+		ok := false
+		for _, o := range engine.Origins(a) {
+			var base ssa.Value
+			switch x := o.(type) {
+			case *ssa.UnOp:
+				if ia, isIA := x.X.(*ssa.IndexAddr); isIA {
+					base = ia.X
+				}
+			case *ssa.Index:
+				base = x.X
+			}
+			if base != nil && intersects(sliceRoots(base), roots) {
+				ok = true
+			}
+		}
+		if !ok {
+			// variadic spread `append(res, xs...)` or anything else: not the popped element
+			return false
+		}
+	}
+	return true
 }
 
 func ruleR20c(c *Check) {
